@@ -58,6 +58,7 @@ pub fn decode_data_url(url: &str) -> (r: Result<DecodedMap>)
         u.emit_text('errors::From<%s>' % ty, text, origin)
         u.raw('fromspec ' + ty, '//@@ prelude fromspec_%s\nimpl vstd::std_specs::convert::FromSpecImpl<std::%s> for Error {\n    open spec fn obeys_from_spec() -> bool { true }\n    open spec fn from_spec(e: std::%s) -> Error { Error::%s(e) }\n}\n//@@ endprelude\n' % (var, ty, ty, var))
     u.spec('utf.rs')
+    u.spec('detect_rule.rs')
     u.spec('detect.rs')
     emit_method(u, D, r'SourceMapRef\b', 'get_url', 'detector::SourceMapRef::get_url')
     emit_method(u, D, r'SourceMapRef\b', 'get_embedded_sourcemap', 'detector::SourceMapRef::get_embedded_sourcemap', prep=lambda f: str_shims(f, u))
